@@ -282,7 +282,7 @@ def model_histories(hists, wd, shards=None, timeout=1500):
 
 
 # ------------------------------------------------------------------ host faults (WasiFs.tla, CallWithFault)
-FAULT_WRAPS = ["open", "open64", "openat", "read", "readv", "pread", "preadv", "write", "writev", "pwrite", "pwritev", "lseek", "stat", "lstat", "fstat",
+FAULT_WRAPS = ["close", "open", "open64", "openat", "read", "readv", "pread", "preadv", "write", "writev", "pwrite", "pwritev", "lseek", "stat", "lstat", "fstat",
                "fstatat", "fsync", "fdatasync", "mkdir", "mkdirat", "rmdir", "unlink", "unlinkat", "rename", "renameat", "symlink", "symlinkat",
                "readlink", "readlinkat"]
 # errors POSIX lists for the host function(s) of each family (and that WASI enumerates)
@@ -292,6 +292,7 @@ FAULT_ERRNOS = {
     "write": "EAGAIN EBADF EFBIG EINTR EIO ENOSPC EPIPE ENXIO EDQUOT EINVAL EPERM ERANGE",
     "seek": "EBADF EINVAL EOVERFLOW ESPIPE ENXIO",
     "stat": "EACCES EIO ELOOP ENAMETOOLONG ENOENT ENOTDIR EOVERFLOW EBADF ENOMEM",
+    "close": "EIO EINTR EBADF ENOSPC EDQUOT",
     "sync": "EBADF EINTR EINVAL EIO EROFS ENOSPC EDQUOT ESTALE ENOLCK EDEADLK ENOTSUP ENOSYS E2BIG ECHILD EDOM EFAULT ENOEXEC ENOTTY ESRCH EXDEV EMLINK",
     "mkdir": "EACCES EEXIST ELOOP EMLINK ENAMETOOLONG ENOENT ENOSPC ENOTDIR EROFS EDQUOT EPERM",
     "rmdir": "EACCES EBUSY EEXIST ENOTEMPTY EINVAL EIO ELOOP ENAMETOOLONG ENOENT ENOTDIR EPERM EROFS",
@@ -301,7 +302,7 @@ FAULT_ERRNOS = {
     "readlink": "EACCES EINVAL EIO ELOOP ENAMETOOLONG ENOENT ENOTDIR",
 }
 FILE_FAULTS = [("open", "open"), ("read", "read"), ("pread", "read"), ("pread", "seek"), ("write", "write"), ("pwrite", "write"), ("pwrite", "seek"),
-               ("seek", "seek"), ("tell", "seek"), ("filestat", "stat"), ("sync", "sync"), ("datasync", "sync")]
+               ("seek", "seek"), ("tell", "seek"), ("filestat", "stat"), ("sync", "sync"), ("datasync", "sync"), ("close", "close")]
 PATH_FAULTS = [("mkdir", "mkdir"), ("rmdir", "rmdir"), ("unlink", "unlink"), ("rename", "rename"), ("symlink", "symlink"), ("readlink", "readlink"),
                ("pathstat", "stat")]
 
@@ -333,6 +334,10 @@ def fault_history(rng, hid, kind, family, err):
         f.update({"fd": 4, "delta": rng.choice([0, 2, 4]), "whence": rng.choice([0, 1, 2])})
     elif kind in ("tell", "filestat", "sync", "datasync"):
         f.update({"fd": 4})
+    elif kind == "close":
+        # what a descriptor is after the host refused to close it is not specified (POSIX leaves it open); whatever the
+        # implementation makes of it, later calls on that number must be safe: they are made, not compared
+        f.update({"fd": 4, "unspec_after": 4})
     elif kind == "mkdir":
         f.update({"dirfd": 3, "path": "n", "parent": ""})
     elif kind == "rmdir":
@@ -348,6 +353,9 @@ def fault_history(rng, hid, kind, family, err):
     elif kind == "pathstat":
         f.update({"dirfd": 3, "path": "a", "parent": ""})
     calls.append(f)
+    if kind == "close":
+        calls += [{"call": "prestat", "abi": abi(), "fd": 4}, {"call": "prestatname", "abi": abi(), "fd": 4, "len": 64}, {"call": "fdstat", "abi": abi(), "fd": 4},
+                  {"call": "close", "abi": abi(), "fd": 4}, {"call": "close", "abi": abi(), "fd": 4}]
     calls += [{"call": "tell", "abi": "p", "fd": 4},
               {"call": "open", "abi": abi(), "dirfd": 3, "path": "fresh", "parent": "", "oflags": 1, "rd": True, "wr": True, "app": False},
               {"call": "read", "abi": abi(), "fd": 4, "lens": [3]}]
@@ -388,6 +396,9 @@ def run_fault_histories(v, hists, wd, sigprefix):
                 break
             if m["errno"] == 999:
                 break
+            unspec = next((x["unspec_after"] for x in h["calls"][:j] if x.get("fault") and "unspec_after" in x), None)
+            if unspec is not None and (c.get("fd") == unspec or c.get("dirfd") == unspec):
+                continue                 # executed (the memory-safety observer watches), not compared
             if c.get("fault") and kind == "call":
                 if not a.get("fired"):
                     notfired += 1
